@@ -40,7 +40,7 @@ INDEX_CALLS = {'core::ops::Index::index': 'index', 'core::ops::IndexMut::index_m
 
 
 class Site:
-    __slots__ = ('fn', 'bb', 'kind', 'expr', 'line', 'macro', 'ops', 'ty', 'status', 'why', 'key', 'detail')
+    __slots__ = ('fn', 'bb', 'kind', 'expr', 'line', 'macro', 'ops', 'ty', 'status', 'why', 'key', 'detail', 'expr_nf', 'nfkey')
 
     def __init__(self, fn, bb, kind, expr, line, macro, ops=None, ty=None):
         self.fn = fn
@@ -54,6 +54,8 @@ class Site:
         self.status = 'open'
         self.why = ''
         self.key = None
+        self.expr_nf = None
+        self.nfkey = None
         self.detail = ''
 
 
@@ -71,7 +73,20 @@ def _diverging_panic(path):
 
 
 def enumerate_sites(g, fn):
-    """All panic-capable sites of one function body."""
+    """All panic-capable sites of one function body; each carries a second, name-free rendering of its expression
+    (no local-variable names, no temporary numbers) from which the table key is built."""
+    sites = _enumerate_sites(g, fn)
+    fn.nf = True
+    try:
+        shadow = _enumerate_sites(g, fn)
+    finally:
+        fn.nf = False
+    for s_, n_ in zip(sites, shadow):
+        s_.expr_nf = n_.expr
+    return sites
+
+
+def _enumerate_sites(g, fn):
     sites = []
     S = g.strs
     for bi in sorted(fn.reach):
@@ -459,10 +474,14 @@ def _ok(site, why):
 def assign_keys(sites):
     """key = fn | kind | expression text (no positions); ordinal for equal keys in block order"""
     cnt = Counter()
+    cnf = Counter()
     for s in sites:
         base = '%s | %s | %s' % (s.fn.path, s.kind, s.expr)
         cnt[base] += 1
         s.key = base if cnt[base] == 1 else '%s #%d' % (base, cnt[base])
+        nfb = '%s | %s | %s' % (s.fn.path, s.kind, getattr(s, 'expr_nf', None) or s.expr)
+        cnf[nfb] += 1
+        s.nfkey = nfb if cnf[nfb] == 1 else '%s #%d' % (nfb, cnf[nfb])
 
 
 # ------------------------------------------------------------------------------------------
